@@ -9,9 +9,9 @@
 * allowed_classes(T): the classes some ppci front end was measured to emit for T (vf/c29_classes.json).
 * restrict(desc, allowed): rewrites a genir description so that it only uses allowed classes.
 * bucket(exc): (exception type, innermost ppci frame, offending tree operator / normalised message).
-* staged_compile(...): the pipeline optimize -> ir_to_object -> link with the intermediate stages observed
-  (IR text after optimisation, selected instructions before register allocation, allocated instructions,
-  object text, image bytes) by wrapping methods of ppci's CodeGenerator.
+* Observer / ir_text / object_text / link_image: observation of the pipeline stages (IR text after optimisation,
+  selected instructions before register allocation, allocated instructions, object text, image bytes) by wrapping
+  methods of ppci's CodeGenerator and GraphColoringRegisterAllocator (used by vf/c30_worker.py).
 """
 
 import hashlib
@@ -19,7 +19,6 @@ import io
 import json
 import os
 import re
-import traceback
 
 TARGETS = ("x86_64", "arm", "arm:thumb", "riscv", "riscv:rvc")
 LEVELS = ("0", "1", "2", "s")
